@@ -477,6 +477,16 @@ func toGenericRunnable[I, O any](cr *composableRunnable, ctxWrapper func(ctx con
 func inputKeyedComposableRunnable(key string, r *composableRunnable) *composableRunnable {
 	wrapper := *r
 	wrapper.genericHelper = wrapper.genericHelper.forMapInput()
+	if innerZero := r.genericHelper.inputZeroValue; innerZero != nil {
+		// the placeholder input of a resumed (interrupted or re-run) node has to carry the key too
+		wrapper.genericHelper.inputZeroValue = func() any { return map[string]any{key: innerZero()} }
+		wrapper.genericHelper.inputEmptyStream = func() streamReader {
+			sr, sw := schema.Pipe[map[string]any](1)
+			sw.Send(map[string]any{key: innerZero()}, nil)
+			sw.Close()
+			return packStreamReader(sr)
+		}
+	}
 	i := r.i
 	wrapper.i = func(ctx context.Context, input any, opts ...any) (output any, err error) {
 		v, ok := input.(map[string]any)[key]
